@@ -505,7 +505,7 @@ func c17Restart(r *Rng, vInit, aInit []byte, viol func(kind, what string, ops []
 		return
 	}
 	count("receiver-restart-runs")
-	twin := r.Intn(2) == 0
+	twin := r.Intn(4) != 0 || os.Getenv("VERIF_TWIN") != ""
 	if twin {
 		count("receiver-restart-runs.twin-sources")
 	}
@@ -513,6 +513,9 @@ func c17Restart(r *Rng, vInit, aInit []byte, viol func(kind, what string, ops []
 		// every track is in the channel's MPD once
 		waitFor(2*time.Second, func() bool { _, err := os.Stat(filepath.Join(dir, "ch", "manifest.mpd")); return err == nil })
 		if mb, err := os.ReadFile(filepath.Join(dir, "ch", "manifest.mpd")); err == nil {
+			if os.Getenv("VERIF_TWIN") == "dump" {
+				fmt.Fprintf(os.Stderr, "%s\n", mb)
+			}
 			if m, err := parseMPD(mb); err == nil && len(m.Periods) > 0 {
 				seen := map[string]int{}
 				for i := range m.Periods[0].Sets {
@@ -541,15 +544,21 @@ func c17Restart(r *Rng, vInit, aInit []byte, viol func(kind, what string, ops []
 				// two redundant sources send the track's first segment after the restart at the same moment: the track is
 				// registered (from its stored init segment) once
 				var wg sync.WaitGroup
-				codes := make([]int, 2)
+				codes := make([]int, 4)
 				body := seg(t, k)
-				for i := 0; i < 2; i++ {
+				gate := make(chan struct{})
+				for i := range codes {
 					wg.Add(1)
-					go func(i int) { defer wg.Done(); codes[i] = put(h2, path, body, "secret") }(i)
+					go func(i int) { defer wg.Done(); <-gate; codes[i] = put(h2, path, body, "secret") }(i)
 				}
+				close(gate)
 				wg.Wait()
-				if codes[0] != 200 && codes[1] != 200 {
-					viol("restart-upload", fmt.Sprintf("PUT %s sent twice at the same moment with the right credentials answered %d and %d", path, codes[0], codes[1]), []string{tag}, nil)
+				anyOK := false
+				for _, cd := range codes {
+					anyOK = anyOK || cd == 200
+				}
+				if !anyOK {
+					viol("restart-upload", fmt.Sprintf("PUT %s sent by several sources at the same moment with the right credentials answered %v", path, codes), []string{tag}, nil)
 					return
 				}
 			} else if code := put(h2, path, seg(t, k), "secret"); code != 200 {
@@ -571,6 +580,26 @@ func c17StorageRun(r *Rng, it int, vInit, aInit []byte, viol func(kind, what str
 	}
 	if it%6 == 4 {
 		c17Bundled(r, viol, count, setTag)
+		return
+	}
+	if it%6 == 3 {
+		// an upload in flight when a renumbered channel (old and new numbers overlapping) starts; then further rounds,
+		// the MPD compared with the stored files after each
+		tag := "# receiver run: upload opened before the start of a renumbered channel, body delivered after it"
+		setTag(tag)
+		count("receiver-slow-body-runs")
+		for rep := 0; rep < 4; rep++ {
+			d, err := os.MkdirTemp(workDir(), "c17slow")
+			if err != nil {
+				break
+			}
+			what := c19SlowBody(r, d, true)
+			os.RemoveAll(d)
+			if what != "" {
+				viol("slow-upload", what, []string{tag}, nil)
+				break
+			}
+		}
 		return
 	}
 	shifted := it%2 == 1
